@@ -779,6 +779,9 @@ void MDSDRV_Track_Writer::end_hook()
 		rest_time = 0;
 	}
 
+	// Gracefully handle infinite loop at the end of a track
+	if(get_play_time() == get_loop_play_time())
+		in_loop = false;
 	if(in_loop)
 		converted_events.push_back(MDSDRV_Event(MDSDRV_Event::JUMP,0));
 	else
